@@ -374,6 +374,7 @@ class Zeroconf(QuietLogger):
         service."""
         info.set_server_if_missing()
         replaced = self.registry.async_get_info_name(info.key)
+        previous_addresses = self.registry.async_get_advertised_addresses(info.key)
         self.registry.async_update(info)
         if replaced is not None:
             # Answers built from the replaced ServiceInfo may still be waiting in
@@ -395,28 +396,27 @@ class Zeroconf(QuietLogger):
             for queue in (self.out_queue, self.out_delay_queue):
                 queue.async_remove_service_records(replaced.key, replaced.server_key, shared)
                 queue.async_remove_records(outdated)
-            if replaced is not info:
-                # An address that the update takes away is withdrawn with the
-                # announcements. The cache-flush bit of the new records does not
-                # do that: it only reaches records of the same type that are
-                # more than a second old, the last address of a family has no
-                # new record of its type at all - lookups would go on resolving
-                # it for its whole TTL
-                current = set(info.dns_addresses())
-                withdrawn = [
-                    record
-                    for record in replaced.dns_addresses(override_ttl=0)
-                    if record not in current and record not in shared
-                ]
-                if withdrawn:
-                    # On its own and tracked like every goodbye: the announcements
-                    # stop when the service is replaced or unregistered again, and
-                    # a shutdown waits for what was promised to be withdrawn
-                    goodbye = asyncio.ensure_future(
-                        self._async_broadcast_address_goodbyes(withdrawn, replaced.server_key)
-                    )
-                    self._goodbye_tasks.add(goodbye)
-                    goodbye.add_done_callback(self._goodbye_tasks.discard)
+            # An address that the update takes away is withdrawn with the
+            # announcements. The cache-flush bit of the new records does not
+            # do that: it only reaches records of the same type that are
+            # more than a second old, the last address of a family has no
+            # new record of its type at all - lookups would go on resolving
+            # it for its whole TTL. What the service had is what the registry
+            # noted when it was added: the ServiceInfo may be the same object,
+            # changed in place
+            current = set(info.dns_addresses())
+            withdrawn: List[DNSRecord] = [
+                record for record in previous_addresses if record not in current and record not in shared
+            ]
+            if withdrawn:
+                # On its own and tracked like every goodbye: the announcements
+                # stop when the service is replaced or unregistered again, and
+                # a shutdown waits for what was promised to be withdrawn
+                goodbye = asyncio.ensure_future(
+                    self._async_broadcast_address_goodbyes(withdrawn, replaced.server_key)
+                )
+                self._goodbye_tasks.add(goodbye)
+                goodbye.add_done_callback(self._goodbye_tasks.discard)
         return asyncio.ensure_future(self._async_broadcast_service(info, _REGISTER_TIME, None))
 
     async def async_get_service_info(
